@@ -13,7 +13,7 @@ use sip_core::{Endpoint, Error, LayerKey, Request};
 use sip_types::header::typed::{Contact, RSeq, Refresher, Supported};
 use sip_types::header::HeaderError;
 use sip_types::uri::{NameAddr, Uri};
-use sip_types::Method;
+use sip_types::{Method, Name};
 use std::sync::Arc;
 use tokio::sync::{mpsc, Mutex};
 
@@ -271,6 +271,13 @@ impl Early {
                     Ok(EarlyResponse::Provisional(response, rseq))
                 }
                 200..=299 => {
+                    // The 2xx confirms the early dialog: remote target and
+                    // route set are taken from this response (RFC 3261 13.2.2.4)
+                    if let Ok(contact) = response.headers.get_named() {
+                        dialog.peer_contact = contact;
+                    }
+                    dialog.route_set = response.headers.get(Name::RECORD_ROUTE).unwrap_or_default();
+
                     let (evt_sink, usage_events) = mpsc::channel(4);
 
                     let supported = response
